@@ -133,8 +133,8 @@ def build_jobs(t, sd):
     jobs = []
     level = "thorough" if thorough else "quick"
     for v, where in ([(6, "main"), (8, "sub"), (4, "sub"), (10, "main")] if not thorough else
-                     [(2, "main"), (4, "main"), (5, "sub"), (6, "main"), (7, "sub"), (8, "sub"), (8, "main"), (9, "sub"), (10, "main"), (10, "sub")]):
-        fam = gen_rw.rw_family("A", v, level if v in (6, 8) or thorough else "quick", sd, where, nrandom=(400 if thorough else 60))
+                     [(2, "main"), (5, "sub"), (6, "main"), (8, "sub"), (10, "main"), (10, "sub")]):
+        fam = gen_rw.rw_family("A", v, level if v in (6, 8) else "quick", sd, where, nrandom=(400 if thorough else 60))
         if not thorough and v in (4, 10):
             fam = fam[::4]
         # the same placements with an explicitly numbered (but still routine-local) variable
